@@ -112,9 +112,13 @@ func (st *SocketServer) acceptConnection() {
 			}
 			continue
 		}
-		if err = AcceptConnection(conn, &st.ServerConfig, st.secure, st.upstreams); err != nil {
-			log.WithError(err).Errorf("Error accepting connection: %v", err)
-		}
+		// Negotiate on a goroutine of its own: a peer that stalls during the handshake must not
+		// keep the accept loop from serving the peers that connect after it.
+		go func(conn net.Conn) {
+			if err := AcceptConnection(conn, &st.ServerConfig, st.secure, st.upstreams); err != nil {
+				log.WithError(err).Errorf("Error accepting connection: %v", err)
+			}
+		}(conn)
 	}
 }
 
